@@ -37,8 +37,8 @@ ASSUMPTIONS = [
 ]
 MIN_NONTRIVIAL = {"quick": 200, "thorough": 5000}
 TIMEOUT = {"quick": 1500, "thorough": 10800}
-NSLICE = {"quick": 8, "thorough": 16}
-NPAIR = {"quick": 320, "thorough": 8000}
+NSLICE = {"quick": 16, "thorough": 16}
+NPAIR = {"quick": 640, "thorough": 8000}
 AMP_LIMIT = 1e6
 # multiple of the first-order round-off estimate (3 perturbed copies sample the spread; a
 # factor 200 left the unchanged tree at 0.3 of the tolerance and once at 5)
